@@ -1020,6 +1020,12 @@ def check_renorm_use(prog, rep):
                             isinstance(b.targets[0], ast.Name) and b.targets[0].id == V and \
                             is_div(b.value):
                         normaliser = b
+                    elif isinstance(b, ast.AugAssign) and isinstance(b.op, ast.Mult) and \
+                            isinstance(b.target, ast.Name) and b.target.id == V and \
+                            isinstance(b.value, ast.BinOp) and isinstance(b.value.op, ast.Div) and \
+                            isinstance(b.value.right, ast.Name) and b.value.right.id == X and \
+                            isinstance(b.value.left, ast.Constant) and b.value.left.value == 1:
+                        normaliser = b   # S *= 1. / renorm
                     if normaliser is not None:
                         break
                 if normaliser is not None and normaliser.lineno < dfn.lineno:
